@@ -137,8 +137,11 @@ func init() {
 }
 
 func runC05(r *simrt.Run, tier Tier) Outcome {
-	if r.Choose(4, "c05.temporal") == 3 {
+	switch r.Choose(8, "c05.kind") {
+	case 6, 7:
 		return runC05Temporal(r, tier)
+	case 5:
+		return runC05Lattice(r, tier)
 	}
 	o := DrawOpts(r)
 	o.NoCollect = false
